@@ -1151,13 +1151,34 @@ def parse_comptime(symbols: list[str], macros: dict = {}) -> list[str]:
 
     return new_symbols
 
+def _strip_comments(symbols: list[str]) -> list[str]:
+    """Removes comments (symbols between matching #, ', or ") so that
+        their contents cannot be mistaken for braces, clause keywords,
+        or arguments. Raises SyntaxError for an unterminated comment.
+    """
+    stripped = []
+    index = 0
+    while index < len(symbols):
+        symbol = symbols[index]
+        if symbol in ('"', "'", '#'):
+            try:
+                index = symbols.index(symbol, index+1) + 1
+            except ValueError:
+                raise SyntaxError(
+                    f'unterminated comment starting with {symbol}'
+                ) from None
+            continue
+        stripped.append(symbol)
+        index += 1
+    return stripped
+
 def assemble(symbols: list[str], macros: dict = {}) -> bytes:
     """Assemble the symbols into bytecode. Raises SyntaxError and
         ValueError for invalid syntax or values.
     """
     index = 0
     code = []
-    symbols = parse_comptime(symbols, macros)
+    symbols = parse_comptime(_strip_comments(symbols), macros)
 
     while index < len(symbols):
         symbol = symbols[index]
